@@ -65,6 +65,9 @@ SPECS = [
     dict(name='kenamond2', fam='kenamond', solver=cat.KEN2, params={}, pool=[[4.0, 1.0], [-4.0, -3.0], [0.0, -6.0], [1.0, 1.0]], times=[0.0], tol=1e-13),
     dict(name='dsd-cyl', fam='dsd', solver=cat.DSDCYL, params={}, pool=[[1.5, 0.5], [-3.0, 1.0], [0.5, -4.0]], times=[0.0], tol=1e-13),
     dict(name='rod1d', fam='heat', solver=cat.ROD, params=dict(Nsum=60), pool=[0.0, 0.3, 0.9, 1.4, 2.0], times=[0.1, 0.4], tol=1e-12),
+    dict(name='riemann2d-fan', fam='riemann2d', solver='exactpack.solvers.riemann2D_2section_steadystate.ep_riemann2D_2section_steadystate.IGEOS_Solver',
+         params=dict(bottom_state=[1.0, 1.0, 2.0, -5.0, 1.4], top_state=[0.25, 1.0, 2.0, 0.0, 1.4]),
+         pool=[[0.642787609687, -0.766044443119], [0.820151875874, -0.572145873446], [0.882947592859, -0.469471562786], [0.931202211771, -0.36450300519], [0.996194698092, 0.087155742748], [0.707106781187, 0.707106781187]], times=[0.0], tol=1e-9),
     dict(name='noh-cyl', fam='noh', solver=cat.NOH + 'Noh', params=dict(geometry=2, gamma=1.4, rho0=2.0, u0=-3.0), pool=[0.05, 0.2, 0.5, 1.0], times=[0.3, 0.6], tol=1e-13),
     dict(name='cog8', fam='cog', solver='exactpack.solvers.cog.cog8.Cog8', params=dict(geometry=2, alpha=-1.5, beta=2.0), pool=[0.3, 0.7, 1.1], times=[0.4, 0.9], tol=1e-13),
     dict(name='sdrz', fam='sdrz', solver=cat.SDRZ, params={}, pool=[0.05, 0.2, 0.35, 0.42], times=[0.5, 1.3], tol=1e-12),
@@ -355,13 +358,13 @@ def replay_history(case):
 def batch_case(draw):
     i = draw(st.integers(0, len(SPECS) - 1))
     spec = SPECS[i]
-    return dict(solver=spec['solver'], spec=spec['name'], i=i, ti=draw(st.integers(0, 1)), k=draw(st.integers(0, 5)), sel=draw(st.sampled_from(['rev', 'sub', 'dup'])),
+    return dict(solver=spec['solver'], spec=spec['name'], ti=draw(st.integers(0, 1)), k=draw(st.integers(0, 5)), sel=draw(st.sampled_from(['rev', 'sub', 'dup'])),
                 j=draw(st.integers(0, 5)))
 
 
 def check_batch(case):
     o = Out()
-    spec = SPECS[case['i']]
+    spec = [sp for sp in SPECS if sp['name'] == case['spec']][0]
     t = spec['times'][case['ti'] % len(spec['times'])]
     s = cat.make_solver(call_spec(spec, [], 0.0))
     pool = batch_points(spec, None, 0)
